@@ -17,6 +17,7 @@
 #include <asl/Pointer.h>
 #include <asl/Shared.h>
 #include <map>
+#include <type_traits>
 #include <set>
 
 using namespace asl;
@@ -269,6 +270,18 @@ struct KHash {
 	static bool extra_null(int) { return false; }
 };
 
+// (KShared only; the other kinds never reach it)
+template <class H>
+static void shared_null_then_assign(H&, H&, int) {}
+template <>
+void shared_null_then_assign<Shared<Base>>(Shared<Base>& d, Shared<Base>& e, int id)
+{
+	Shared<Base> nul((Base*)0);
+	e = nul;
+	nul = (Base*)new Item(id, Shared<Item>());
+	d = nul;
+}
+
 // ---- model -----------------------------------------------------------------------------------------------------
 
 static const int NVAR = 4;
@@ -363,7 +376,19 @@ static void run_graph(const vf::Case& c)
 				break;
 			}
 			case G_EXTRA:
-				if (K::extra_null(how)) {
+				if (std::is_same<K, KShared>::value && how % 5 == 4 && a != b) {
+					// an EMPTY core (handle made from a null raw pointer) shared by two handles; one of them is then given an object through
+					// the raw-pointer assignment: the other must stay empty and must not keep the object alive
+					int id = next_oid++;
+					what = vf::str("v", b, " = <copy of a handle wrapping a null pointer>; that handle = new object ", id, " (operator=(T*)); v", a, " = that handle");
+					nnull += (m.var[a] >= 0) + (m.var[b] >= 0);
+					shared_null_then_assign(v[a], v[b], id);
+					m.child[id] = -1;
+					m.ever.insert(id);
+					m.var[a] = id;
+					m.var[b] = -1;
+				}
+				else if (K::extra_null(how)) {
 					what = vf::str("v", a, " = <handle wrapping a null raw pointer>, copied and assigned around");
 					nnull += m.var[a] >= 0;
 					K::extra(v[a], v[b], how, 0);
